@@ -716,13 +716,25 @@ pub fn validate_decompression_operation(
     // Check session limits first (current + projected)
     session_tracker.check_session_limits_with_addition(expected_decompressed_size, limits)?;
 
-    // Validate basic file bounds
+    // Validate basic file bounds. The flat ratio limit must not pre-empt the adaptive
+    // limit applied below: small, highly repetitive payloads legitimately exceed it.
+    let bounds_limits = if limits.enable_pattern_detection && limits.enable_adaptive_limits {
+        let adaptive = AdaptiveCompressionLimits::new(limits.max_compression_ratio, true);
+        SecurityLimits {
+            max_compression_ratio: adaptive
+                .calculate_limit(compressed_size, compression_method)
+                .max(limits.max_compression_ratio),
+            ..limits.clone()
+        }
+    } else {
+        limits.clone()
+    };
     validate_file_bounds(
         0, // offset not relevant for this check
         expected_decompressed_size,
         compressed_size,
         u64::MAX, // archive size not relevant for this check
-        limits,
+        &bounds_limits,
     )?;
 
     // Run pattern-based compression bomb detection
